@@ -662,7 +662,43 @@ def covers(repo, tier):
     return {"obligations": obls}
 
 
-EXTRA = [registry, ods_cell_kinds, covers]
+def glue(repo, tier):
+    """The public methods are thin wrappers of the functions under contract (syntactic; unrecognised shape -> UNDECIDED)."""
+    obls = []
+    m = loader.module(DT_PY, repo)
+    bad, n = [], 0
+    for q, fn in m.functions.items():
+        if q.endswith(".to_json") and "<locals>" not in q:
+            body = [b for b in fn.body if not (isinstance(b, ast.Expr) and isinstance(b.value, ast.Constant))]
+            if not body and q.split(".")[0] in ("ExtractionInterface", "UnitInterface"):
+                continue      # abstract declaration
+            n += 1
+            if not (len(body) == 1 and isinstance(body[0], ast.Return) and ast.unparse(body[0].value) == "serialize_extraction(self)"):
+                bad.append(f"{q}: {ast.unparse(body[0])[:60] if body else 'empty'}")
+    obls.append(ground_obligation("C05/data_types.py::to_json/glue#every-to_json-is-serialize_extraction-of-self", n >= 30 and not bad, "; ".join(bad) or f"{n} to_json methods",
+                                  DT_PY, kind="glue", backend="ground", definite=False))
+    fj = m.functions.get("ExtractionInterface.from_json")
+    ok = fj is not None and [ast.unparse(b) for b in fj.body if not (isinstance(b, ast.Expr) and isinstance(b.value, ast.Constant))] == ["return deserialize_extraction(data)"]
+    obls.append(ground_obligation("C05/data_types.py::ExtractionInterface.from_json/glue#from_json-is-deserialize_extraction", ok, "", DT_PY, kind="glue", backend="ground", definite=False))
+    imp_ok = m.imports.get("serialize_extraction", "").endswith("serialization.serialize_extraction") and m.imports.get("deserialize_extraction", "").endswith("serialization.deserialize_extraction")
+    obls.append(ground_obligation("C05/data_types.py::imports/glue#names-bound-to-serialization-module", imp_ok, str({k: m.imports.get(k) for k in ("serialize_extraction", "deserialize_extraction")}),
+                                  DT_PY, kind="glue", backend="ground", definite=False))
+    c = loader.module(CLI_PY, repo)
+    mn = c.functions.get("main")
+    ok, why = False, "cli.main missing"
+    if mn is not None:
+        src = ast.unparse(mn)
+        dumps = [x for x in ast.walk(mn) if isinstance(x, ast.Call) and ast.unparse(x.func) in ("json.dumps", "json.dump")]
+        pay = [x for x in ast.walk(mn) if isinstance(x, ast.Assign) and ast.unparse(x.targets[0]) == "payload"]
+        want = "_serialize_unit_results(results, include_binary=include_binary) if args.json_unit else _serialize_results(results, include_binary=include_binary)"
+        ok = len(pay) == 1 and ast.unparse(pay[0].value) == want and len(dumps) == 1 and ast.unparse(dumps[0].args[0]) == "payload" \
+            and "include_binary = bool(args.binary)" in src
+        why = f"payload = {ast.unparse(pay[0].value)[:120] if pay else '?'}; {len(dumps)} json.dump(s) call(s)"
+    obls.append(ground_obligation("C05/cli.py::main/glue#stdout-json-is-the-shaped-payload", ok, why, CLI_PY, kind="glue", backend="ground", definite=False))
+    return {"obligations": obls, "functions": [dict(c.fn_info("main"), obligations=1)] if mn is not None else []}
+
+
+EXTRA = [registry, ods_cell_kinds, covers, glue]
 
 
 def recorded_exclusions():
